@@ -406,6 +406,10 @@ rounds:
 	}
 	apps, _, bad := attribute(sessions, log)
 	if bad != nil {
+		if _, amb := bad["attribution_ambiguous_payload_was_forwarded_on_session"]; amb {
+			res.Inconcl = fmt.Sprintf("applied entries could not be attributed to connections (apply index %v): %v", bad["apply_index"], bad)
+			return
+		}
 		add(sigWirePrefix, bad)
 		return
 	}
